@@ -25,6 +25,7 @@ const PROFILE: Profile = Profile {
     w_verify: 70,
     w_z2: 30,
     w_z3: 0,
+    w_z4: 1,
     clean: 40,
 };
 
@@ -137,7 +138,9 @@ fn byzantine_deliveries(rng: &mut Prng, or: &Oracles, n: usize, out: &mut Vec<De
     let (t, edge) = *rng.pick(&targets);
     // a third of the triples fill the compressed budget exactly (or leave 1..8 bits)
     let fill = if !edge && rng.chance(1, 3) { Some(*rng.pick(&[0usize, 0, 0, 1, 2, 7, 8])) } else { None };
-    let tr = match byz::exact_norm_triple_fill(p, &or.get(n).ntt, rng, t, edge, fill) {
+    // a third of the remaining triples are lopsided: all of the norm in s2 (s1 = 0), or all of it in s1
+    let shape: u8 = if fill.is_none() && !edge { *rng.pick(&[0u8, 0, 0, 0, 1, 2]) } else { 0 };
+    let tr = match byz::exact_norm_triple_shape(p, &or.get(n).ntt, rng, t, edge, fill, shape) {
         Some(t) => t,
         None => return,
     };
@@ -149,7 +152,7 @@ fn byzantine_deliveries(rng: &mut Prng, or: &Oracles, n: usize, out: &mut Vec<De
         pk: tr.pk.clone(),
         pristine: None,
         faults: vec![],
-        origin: if fill.is_some() { "Z1-fill".into() } else { "Z1".into() },
+        origin: if fill.is_some() { "Z1-fill".into() } else if shape == 1 { "Z1-all-in-s2".into() } else if shape == 2 { "Z1-all-in-s1".into() } else { "Z1".into() },
         detail: format!("{} max|s1|={}", tr.note, tr.s1_max),
     };
     out.push(base.clone());
